@@ -40,7 +40,7 @@ USED = ("Other people have already seeded bugs in BaseMatching._update_inner / u
         "LatticeColumn.upsert / prune / set_delayed / values (set), the re-prune calls, the `unique` collapse, node_path_to_only_nodes (falsy label), the falsy-label test in _match_non_emitting_states_inner, the loop bound of _build_matching_path, "
         "a skipped re-backtracking in _build_node_path, _create_start_nodes (return value, max_elmt), the use_latlon setter of BaseMap, InMemMap.__init__ (shared default graph), from_pickle (cache), deserialize (crs key), a cache inside InMemMap.edges_nbrto, "
         "InMemMap.add_node / nodes_nbrto / edges_closeto / bb, best_last_matches, the shared edge_o segment, dist_euclidean.distance (extra components) and project, dist_latlon (segment-to-segment interpolation, zero-length test, "
-        "bearing normalisation, ti clamp, longitude clamp of box_around_point), Segment.key / label comparisons, prune_value, the logprobe copy in _update_inner, the `self.lattice = dict()` reset in _create_start_nodes, a cache in LatticeColumn.values_all, identity comparison of labels in the non-emitting search, the SQL of reindex_edges, exception safety of InMemMap.add_edge, the outside-both-segments case of the planar segment-to-segment distance, the `self.path = path` assignments in match(), the non_emitting_length_factor default, d_o in DistanceMatching._update_inner, the SQL of reindex_nodes, a has-linked-roads flag on SqliteMap, the end-state choice in _build_node_path, the sort in InMemMap.nodes_closeto/edges_closeto, a class-level `matcher` attribute on BaseMatching, a memo of observation distances in DistanceMatcher, the `unique` default of increase_max_lattice_width, the file name built in InMemMap.dump, a shortcut in the geodesic segment-to-segment distance - do something else.")
+        "bearing normalisation, ti clamp, longitude clamp of box_around_point), Segment.key / label comparisons, prune_value, the logprobe copy in _update_inner, the `self.lattice = dict()` reset in _create_start_nodes, a cache in LatticeColumn.values_all, identity comparison of labels in the non-emitting search, the SQL of reindex_edges, exception safety of InMemMap.add_edge, the outside-both-segments case of the planar segment-to-segment distance, the `self.path = path` assignments in match(), the non_emitting_length_factor default, d_o in DistanceMatching._update_inner, the SQL of reindex_nodes, a has-linked-roads flag on SqliteMap, the end-state choice in _build_node_path, the sort in InMemMap.nodes_closeto/edges_closeto, a class-level `matcher` attribute on BaseMatching, a memo of observation distances in DistanceMatcher, the `unique` default of increase_max_lattice_width, the file name built in InMemMap.dump, a shortcut in the geodesic segment-to-segment distance, batching in SqliteMap.add_nodes, the upsert calls of _match_non_emitting_states_end and the lattice_best dictionary of _match_non_emitting_states, a longitude clamp in the geodesic point-to-segment projection, a set over the neighbour list in _match_states, BaseMatcher._insert, the `not m.stop` filter of the non-emitting search, the parallel test of the planar segment-to-segment distance - do something else.")
 
 
 def main():
